@@ -57,6 +57,11 @@ CHECKS.update({
         text="Two endpoints perform the real Noise handshake over a simulated carrier and then exchange byte streams in both directions through the real NoiseSocket (split into reader and writer tasks under the seeded scheduler). Write sizes cover 1 byte to several maximum frames incl. 65519/65520/65521, reader buffers 1 byte to 400 kB, read-ahead 1-5 and write-buffer 1-3, carrier chunking down to one byte, short writes, Pending and a bounded window. Reference model: a byte FIFO (position-indexed pseudo-random stream). Honest runs: bytes read = bytes written, no error, no stall. Attacker runs (one ciphertext frame flipped, truncated, replayed, dropped or swapped): no byte that differs from the honest stream is ever delivered and nothing from the attacked frame on is delivered.", ref="DESIGN.md §5 C02"),
 })
 
+CHECKS.update({
+    "C04": dict(engine="bytepipe", technique="deterministic simulation: litep2p's framed Substream over real yamux streams on a simulated carrier; message-FIFO reference model; sender stops polling after completion",
+        text="A sender and a receiver task exchange messages through litep2p's framed Substream wrapped around a real yamux stream pair whose two connections are driven by their own tasks on a simulated carrier (seeded fragmentation, short writes, Pending, bounded window) under the seeded scheduler. Codecs: fixed-size frames below, at and above 1024 bytes; varint with small, large and no sender-side maximum. Messages of 0, 1, max-1, max, max+1 bytes, larger than the 64 KiB back-pressure boundary and the 256 KiB flow-control window; APIs Sink send, feed+flush, send_framed; receiver stalls; malformed raw length prefixes. Reference model: FIFO of messages. Oracle: received sequence equals the sequence handed over; illegal sizes are refused at the sender; a legal send never fails; every message whose send/flush returned Ok is obtained by the receiver although the sender never polls again; malformed prefixes end the stream without panic or oversize message.", ref="DESIGN.md §5 C04"),
+})
+
 NOT_BUILT = {
 }
 
